@@ -183,7 +183,9 @@ theorem parsedInstr_of_wellFormed (i : Instruction) (hw : wellFormed i = true)
 /-- the kinds for which the API round trip is proved: the plain kinds and the ones whose only expressions are
 gate parameters / a trailing frame expression -/
 def apiKind : Instruction → Bool
-  | .gate _ | .setFrequency _ | .setPhase _ | .setScale _ | .shiftFrequency _ | .shiftPhase _ => true
+  | .gate _ | .setFrequency _ | .setPhase _ | .setScale _ | .shiftFrequency _ | .shiftPhase _
+  | .delay _ => true
+  | .rawCapture r => r.memoryReference.name != "i"
   | i => plainKind i
 
 /-- what a printed instruction of an `apiKind` parses back to: every expression `e` replaced by `norm e`
@@ -196,6 +198,8 @@ def normInstr : Instruction → Instruction
   | .setScale s => .setScale ⟨s.frame, norm s.scale⟩
   | .shiftFrequency s => .shiftFrequency ⟨s.frame, norm s.frequency⟩
   | .shiftPhase s => .shiftPhase ⟨s.frame, norm s.phase⟩
+  | .delay d => .delay { d with duration := norm d.duration }
+  | .rawCapture r => .rawCapture { r with duration := norm r.duration }
   | i => i
 
 theorem slotOf_normInstr (i : Instruction) : slotOf (normInstr i) = slotOf i := by
@@ -259,6 +263,16 @@ theorem rt_of_apiKind (F : NumFmt) (d : Nat) (i : Instruction) (hw : wellFormed 
     simp only [hasPlaceholder] at hp
     simp only [numTokInstr] at hn
     exact rt_shiftPhase_norm F d f e (frameOk_of f hw.1 hp) (exprOk_finiteLits e hw.2) hn hd
+  | delay dl =>
+    simp only [wellFormed, Bool.and_eq_true] at hw
+    simp only [hasPlaceholder] at hp
+    simp only [numTokInstr, Bool.and_eq_true] at hn
+    exact rt_delay_norm F d dl (all_noPlaceholder_of _ hw.2 hp) (exprOk_finiteLits _ hw.1) hn.1 hn.2 hd
+  | rawCapture r =>
+    simp only [wellFormed, Bool.and_eq_true, bne_iff_ne, ne_eq] at hw
+    simp only [hasPlaceholder] at hp
+    simp only [numTokInstr] at hn
+    exact rt_rawCapture_norm F d r (frameOk_of _ hw.1.1.1 hp) (exprOk_finiteLits _ hw.1.1.2) hn hw.2 hd
   | _ =>
     all_goals
       first
